@@ -224,6 +224,34 @@ def verifyAnswer (cache : Option (String × Except VDecErr VerifierM)) (toks : L
           | .piLen => ("err:pilen", cache)
           | .reject => ("err:verify" ++ canon, cache)
     | _, _, _, _ => ("bad-request", cache)
+  | ["vkscalars", ver, _x, vhex, pis, phex] =>
+    -- the TOTAL scalar each of the 15 verifier-key commitments carries in the right-hand side of the verification
+    -- equation (textbook form), for the challenges of this statement and proof: scalars depend on evaluations and
+    -- challenges only, so they are read off a copy of the terms in which every commitment is a distinct marker.
+    -- Used by the search for a failing input (a key commitment that the transcript does not bind can be shifted).
+    match verName? ver, parseList? pis, parseBytes? phex, parseBytes? vhex with
+    | some ver, some pis, some pb, some vb =>
+      match VerifierM.fromBytes vb, ProofM.fromBytes? pb with
+      | .ok v, some p =>
+        match Domain.new? v.vk.n with
+        | none => ("err", cache)
+        | some d =>
+          let ch := verifierChallenges v.label v.vk v.constraints (ver == .v3) pis p
+          let roots := v.piIndexes.map fun i => fpow d.groupGenInv (i % 2 ^ 64)
+          let mk (i : Nat) : G1 := .aff (1000 + i) 1
+          let vkM : VKey := { n := v.vk.n, qm := mk 0, ql := mk 1, qr := mk 2, qo := mk 3, qf := mk 4, qc := mk 5, qarith := mk 6,
+                              qlogic := mk 7, qrange := mk 8, qfixed := mk 9, qvar := mk 10, s1 := mk 11, s2 := mk 12,
+                              s3 := mk 13, s4 := mk 14 }
+          let pM : ProofM := { p with aC := mk 20, bC := mk 21, cC := mk 22, dC := mk 23, zC := mk 24, tLow := mk 25,
+                                      tMid := mk 26, tHigh := mk 27, tFourth := mk 28, wz := mk 29, wzw := mk 30 }
+          match verifyRefTerms vkM (mk 40) d roots pis pM ch (ver == .v1) with
+          | none => ("err", cache)
+          | some terms =>
+            let sc (i : Nat) : Nat := terms.foldl (fun acc (s, pt) => if pt == mk i then fadd acc s else acc) 0
+            let ss := String.intercalate "," ((List.range 15).map fun i => toHex (sc i))
+            (s!"z={toHex ch.z} n={v.vk.n} g={showBytes v.ok.g.toCompressed} scalars={ss}", cache)
+      | _, _ => ("err", cache)
+    | _, _, _, _ => ("bad-request", cache)
   | ["chals", ver, _x, vhex, pis, phex] =>
     -- the challenges the (current) transcript order yields for this statement and proof; used by the search for a
     -- failing input to build proofs that depend on a challenge (e.g. shifted opening commitments)
